@@ -164,7 +164,7 @@ def clean_value(rules, env, k, stack=(), follow_single_use=True):
 # ----------------------------------------------------------------------------------------------
 # histories
 # ----------------------------------------------------------------------------------------------
-def gen_history(rng, rules, nops, cancel=False, threads=False, allow_restart=True, allow_revert=True):
+def gen_history(rng, rules, nops, cancel=False, threads=False, allow_restart=True, allow_revert=True, crash=False):
     """list of op dicts.  Builds carry a random completion schedule; with `cancel`, some builds are
     cancelled at a random event or hook point."""
     keys = sorted(rules)
@@ -215,6 +215,11 @@ def gen_history(rng, rules, nops, cancel=False, threads=False, allow_restart=Tru
                     i = rng.below(len(items))
                     items[i] = (1, items[i][1])
             mode = 1 if threads and rng.chance(1, 2) else 0
+            if crash and rng.chance(1, 3):
+                # the process is killed before its n-th event (at the latest right before the commit)
+                ops.append({"op": "K", "key": tgt, "cancel_at": 3 + rng.below(60), "mode": 0, "items": [(0, ks) for _, ks in items]})
+                nb += 1
+                continue
             ops.append({"op": "B", "key": tgt, "cancel_at": cancel_at, "mode": mode, "items": items})
             nb += 1
     return ops
@@ -225,8 +230,8 @@ def op_line(o):
         return "M %d %d" % (o["slot"], o["val"])
     if o["op"] in ("E", "W", "F"):
         return o["op"]
-    if o["op"] == "B":
-        t = ["B", o["key"], o["cancel_at"], o["mode"], len(o["items"])]
+    if o["op"] in ("B", "K"):
+        t = [o["op"], o["key"], o["cancel_at"], o["mode"], len(o["items"])]
         for cflag, ks in o["items"]:
             t += [cflag, len(ks)] + list(ks)
         return " ".join(str(x) for x in t)
@@ -292,6 +297,9 @@ def model_lines(case, houts):
         if o["op"] == "B":
             out.append("T " + houts[i])
             i += 2
+        elif o["op"] == "K":
+            out.append("T " + houts[i])
+            i += 1
         else:
             out.append(op_line(o))
             i += 1
@@ -354,7 +362,12 @@ def analyse_case(case, houts, focus):
             changed_since = True
             i += 1
             continue
-        if o["op"] == "E":
+        if o["op"] == "K":
+            # the process died mid-build: nothing of that build was committed; a new process starts
+            st["crashes"] = st.get("crashes", 0) + 1
+            if not houts[i].endswith("KILL"):
+                fails.append({"what": "crash run did not end in a kill: " + houts[i][-200:], "kind": "harness", "input": {"case_op": oi}})
+        if o["op"] in ("E", "K"):
             st["restarts"] += 1
             # a new process knows what the database knows
             sh.uptodate = dict(sh.completed)
